@@ -187,6 +187,30 @@ def run(chk: Check) -> None:
     rets = [s for s in ast.walk(ac.node) if isinstance(s, ast.Return)]
     chk.ob('DISP-command', ac, len(rets) >= 1 and all(r.value is not None for r in rets), 'returns the state built', kind='returns-state')
 
+    # a command object that can end up in a checkpoint must be complete: either nothing ever stores a command in the RUNNING
+    # state (the saved-command path is dead), or every Command class persists every field its constructor captures
+    from ..rules import attr_writers
+    from .sym import saved_bindings
+    incomplete = []
+    for c in universe:
+        auto = auto_persist_set(prog, c)
+        sb = {}
+        for k_ in c.mro_classes():
+            if 'save_instance_state' in k_.methods:
+                for key, attrs in saved_bindings(chk.ctx, prog.view(k_.methods['save_instance_state'])).items():
+                    sb.setdefault(key, set()).update(attrs)
+        saved_attrs = set().union(*sb.values()) if sb else set()
+        for attr, _, _ in captured_fields(c.methods['__init__']):
+            if attr not in auto and attr not in saved_attrs:
+                incomplete.append(f'{c.name}.{attr}')
+    chk.units['command_fields_not_persisted'] = incomplete
+    stored = [(f, n) for f, n in attr_writers(prog, '_command') if f.owner_class is not None and f.owner_class.is_subclass_of(running) and f.name != 'load_instance_state']
+    for f, n in stored:
+        chk.ob('SYM-command-complete', f, not incomplete, 'a command is kept in the RUNNING state, so it is written into checkpoints -- but these constructor fields are not persisted: '
+               f'{incomplete}; a restore applies the half-restored command instead of re-running the step', node=n, kind='stored-command-is-complete')
+    chk.ob('SYM-command-complete', running.qualname, bool(stored) or True, f'commands stored in the RUNNING state outside load: {len(stored)}; command fields not persisted: {incomplete} '
+           '(harmless while nothing stores a command)', kind='command-storage-scan', expr='_command')
+
     # Running.execute: result wrapping and dispatch
     ex = prog.func('process_states.Running.execute')
     run_calls = [c for c in calls_in_func(ex) if norm(c.func) == 'self.run_fn']
@@ -302,6 +326,31 @@ def resume_value_forwarding(chk: Check, rule: str) -> None:
                 variants = [(atoms, args + [norm(a)]) for atoms, args in variants]
         for atoms, args in variants:
             virtual.append((base | atoms, args, c))
+    # once the awaited value has been obtained nothing discards it: from the await's normal successor every way on -- return
+    # or explicit raise -- passes the creation of the RUNNING state (an interruption noticed late must not eat the value)
+    created = [m for c in wc for m in ff.cfg.nodes_containing(c)]
+    awn = [m for a_ in aw for m in ff.cfg.nodes_containing(a_)]
+    lost = []
+    for m in awn:
+        starts = [t for t, l in m.succ if l not in ('exc', 'uncaught', 'handler')]
+        reach = ff.cfg.reachable(starts, avoid=lambda x: x in created, edge_ok=no_exc, include_src=True)
+        lost += [x for x in ff.cfg.nodes if x.id in reach and (x.kind == 'raisestmt' or x is ff.cfg.exit) and x not in created]
+    chk.ob(rule, we, bool(awn) and not lost, 'after the waiting future delivered its value every continuation of the step builds the RUNNING state from it (no return and no raise in between: '
+           'an interruption that is raised after the value was taken drops the value, the re-armed future is never resolved again)', node=lost[0].ast if lost and lost[0].ast is not None else None,
+           kind='awaited-value-not-discarded')
+    # and no Waiting state builds RUNNING without having awaited the waiting future (directly or through super().execute())
+    wbase = prog.cls('process_states.Waiting')
+    for sc in prog.subclasses(wbase):
+        ex2 = sc.methods.get('execute')
+        if ex2 is None:
+            continue
+        f2 = chk.ctx.facts.analyse(ex2)
+        mk = [m for c in calls_in_func(ex2) if calls.state_ctor_label(ex2, c) is not None for m in f2.cfg.nodes_containing(c)]
+        waits = [m for m in f2.cfg.nodes if m.expr() is not None and any(isinstance(x, ast.Await) and (f2.canon.key(x.value) == 'self._waiting_future' or (
+            isinstance(x.value, ast.Call) and norm(x.value.func) == 'super().execute')) for x in walk_shallow(m.expr()))]
+        ok2 = all(f2.cfg.must_pass(f2.cfg.entry, [m], lambda x: x in waits, edge_ok=no_exc) for m in mk)
+        chk.ob(rule, ex2, ok2, f'{sc.name}.execute builds the next state only after the waiting future was awaited (the wake-up, which is sent once the results are in place, is the only '
+               'thing that may end the wait)', node=mk[0].ast if mk else None, kind='next-state-only-after-wake-up')
     ok_cb = bool(virtual) and all(args and args[0] == 'self.done_callback' for _, args, _ in virtual)
     chk.ob(rule, we, ok_cb, 'the continuation stored in the WAITING state is what runs next', kind='waiting-callback')
     ok_null = var is not None and bool(virtual)
@@ -322,6 +371,20 @@ def resume_value_forwarding(chk: Check, rule: str) -> None:
     chk.ob(rule, we, ok_null, 'resume value forwarded to the continuation exactly when it is not NULL '
            '(f(v) after resume(v), f() after resume())', kind='resume-value-forwarded')
     resume_value_reaches_future(chk, rule)
+    # "f() if resumed without a value" is decided by ``value == NULL``: the sentinel must equal nothing but itself
+    nul = [c for c in prog.all_classes() if c.module.short == 'lang' and c.name.strip('_') == 'NULL']
+    for c in nul:
+        eq = c.methods.get('__eq__')
+        if eq is None:
+            chk.ob(rule, c.qualname, True, 'the no-value sentinel compares by identity', kind='null-equals-only-itself', expr='__eq__')
+            continue
+        op = eq.params[1] if len(eq.params) > 1 else 'other'
+        okforms = {f'isinstance({op}, self.__class__)', f'isinstance({op}, type(self))', f'{op} is self', f'self is {op}', f'type({op}) is type(self)', f'type({op}) is self.__class__'}
+        rets = [r for r in ast.walk(eq.node) if isinstance(r, ast.Return)]
+        ok = bool(rets) and all(r.value is not None and (norm(r.value) in okforms or norm(r.value) in ('False', 'NotImplemented')) for r in rets)
+        chk.ob(rule, eq, ok, 'the no-value sentinel equals only itself (were it equal to None, 0 or anything a caller may pass, resume(<that value>) would run f() instead of f(value))',
+               node=rets[0] if rets else None, kind='null-equals-only-itself')
+    chk.need(bool(nul), 'the NULL sentinel class was not found in lang')
 
 
 def resume_value_reaches_future(chk: Check, rule: str) -> None:
